@@ -13,6 +13,7 @@ def stackOp (st : St) (o : Op) (un : Option Op) : R St :=
 inductive Tok where
   | opd (x : Bytes)      -- an operand text
   | sym (o : Op)         -- an occurrence of an operator symbol; the machine decides unary / binary / parenthesis
+  | call (f b args : Bytes)  -- a function call `f b ( args )`: name, blanks before the parenthesis, raw argument text
 deriving Repr
 
 /-- the loop variables of `parse` -/
@@ -21,15 +22,19 @@ structure MSt where
   hv : Bool              -- haveOperand
   un : Option Op         -- unaryOp
 
+/-- the stack effect of a captured call: the operand `f` just pushed is replaced by the `parsedFunction` -/
+def pushCall (st : St) (un : Option Op) (f args : Bytes) : St := { st with opds := .func un f args :: st.opds }
+
 /-- one token = what one iteration of the scan loop does to the loop variables -/
 def stepTok (m : MSt) : Tok → R MSt
   | .opd x => .ok ⟨pushOperand m.st m.un x, true, none⟩
+  | .call f _ args => .ok ⟨pushCall m.st m.un f args, true, none⟩
   | .sym o =>
     if o.un && !m.hv then
       match m.un with
       | some _ => .err
       | none => .ok ⟨m.st, m.hv, some o⟩
-    else if m.hv && o.sym == LP then .err        -- a function call is not a token-level step
+    else if m.hv && o.sym == LP then .err        -- a `(` after an operand opens a call: that is the token `call`
     else
       match stackOp m.st o m.un with
       | .ok st' => .ok ⟨st', o.sym == RP, none⟩
@@ -62,6 +67,7 @@ inductive E where
   | atom (u : Option Op) (x : Bytes)
   | bin (o : Op) (l r : E)
   | paren (u : Option Op) (e : E)
+  | call (u : Option Op) (f b args : Bytes)   -- `f b ( args )` with the raw text between the parentheses
 
 def unTok : Option Op → List Tok
   | none => []
@@ -72,6 +78,7 @@ def E.toks (lp rp : Op) : E → List Tok
   | .atom u x => unTok u ++ [.opd x]
   | .bin o l r => l.toks lp rp ++ [.sym o] ++ r.toks lp rp
   | .paren u e => unTok u ++ [.sym lp] ++ e.toks lp rp ++ [.sym rp]
+  | .call u f b args => unTok u ++ [.call f b args]
 
 /-- a sign before a parenthesis: `expressionTree{left, unaryOp}` -/
 def wrapN : Option Op → Node → Node
@@ -83,11 +90,13 @@ def E.toTree : E → Node
   | .atom u x => .operand u x
   | .bin o l r => .tree l.toTree r.toTree (some o) none
   | .paren u e => wrapN u e.toTree
+  | .call u f _ args => .func u f args
 
 /-- precedence of the operator at the top level (outside parentheses); none = primary -/
 def E.minPrec : E → Option Nat
   | .atom _ _ => none
   | .paren _ _ => none
+  | .call _ _ _ _ => none
   | .bin o _ _ => some o.prec
 
 def geP (m : Option Nat) (p : Nat) : Prop := match m with | none => True | some q => p ≤ q
@@ -101,6 +110,7 @@ def unOK : Option Op → Prop
 def E.WF (lpPrec : Nat) : E → Prop
   | .atom u _ => unOK u
   | .paren u e => unOK u ∧ e.WF lpPrec
+  | .call u _ _ _ => unOK u
   | .bin o l r => o.sym ≠ LP ∧ o.sym ≠ RP ∧ lpPrec < o.prec ∧ l.WF lpPrec ∧ r.WF lpPrec ∧
                   geP l.minPrec o.prec ∧ gtP r.minPrec o.prec
 
@@ -274,6 +284,13 @@ theorem run_toks (lp rp : Op) (hlp : lp.sym = LP) (hlu : lp.un = false) (hrp : r
     | some v =>
       have hv : v.un = true := hw
       simp [E.toks, unTok, runToks, stepTok, spineOpds, spineOps, pushOperand, hv]
+  | call u f b args =>
+    refine ⟨[], .func u f args, ?_, rfl, rfl, by simp⟩
+    cases u with
+    | none => simp [E.toks, unTok, runToks, stepTok, spineOpds, spineOps, pushCall]
+    | some v =>
+      have hv : v.un = true := hw
+      simp [E.toks, unTok, runToks, stepTok, spineOpds, spineOps, pushCall, hv]
   | paren u e ih =>
     obtain ⟨hu, hwe⟩ := hw
     have hc' : CtxFor e (⟨lp, u⟩ :: ops) := by
@@ -284,6 +301,7 @@ theorem run_toks (lp rp : Op) (hlp : lp.sym = LP) (hlu : lp.un = false) (hrp : r
         cases e with
         | atom _ _ => simp [E.minPrec] at hm
         | paren _ _ => simp [E.minPrec] at hm
+        | call _ _ _ _ => simp [E.minPrec] at hm
         | bin o l r =>
           simp [E.minPrec] at hm; subst hm
           exact ⟨hwe.2.2.1, Or.inl hlp⟩
